@@ -68,13 +68,26 @@ Definition server_hist (S : list stx) (a : addr) : hist :=
 Definition ids (S : list stx) : list N := map (fun x => t_id (fst x)) S.
 Definition mem_id (p : N) (l : list N) : bool := existsb (N.eqb p) l.
 
-(* consistency of a server state: ids unique and non-null, every input's parent is present or external (0) *)
+(* consistency of a server state: ids unique and non-null, every input's parent is present or external (0),
+   listed in the canonical order *)
 Fixpoint nodup_ids (l : list N) : bool :=
   match l with [] => true | x :: r => negb (mem_id x r) && nodup_ids r end.
 Definition closed_b (S : list stx) : bool :=
   forallb (fun x => forallb (fun inp => N.eqb (fst inp) 0 || mem_id (fst inp) (ids S)) (t_ins (fst x))) S.
+(* canonical order of a server's list: confirmed transactions by (height, id), then mempool ones by id *)
+Definition entry_lt (x y : entry) : bool :=
+  if (0 <? snd x)%Z then
+    (if (0 <? snd y)%Z then (snd x <? snd y)%Z || ((snd x =? snd y)%Z && N.ltb (fst x) (fst y)) else true)
+  else
+    (if (0 <? snd y)%Z then false else N.ltb (fst x) (fst y)).
+Fixpoint sorted_b (l : hist) : bool :=
+  match l with
+  | x :: r => match r with y :: _ => entry_lt x y && sorted_b r | [] => true end
+  | [] => true
+  end.
+Definition entries (S : list stx) : hist := map (fun x => (t_id (fst x), snd x)) S.
 Definition server_ok_b (S : list stx) : bool :=
-  nodup_ids (ids S) && negb (mem_id 0%N (ids S)) && closed_b S.
+  nodup_ids (ids S) && negb (mem_id 0%N (ids S)) && closed_b S && sorted_b (entries S).
 
 Definition output_eqb (o o' : output) : bool :=
   match o_kind o, o_kind o' with
